@@ -114,6 +114,13 @@ UTF8_STR_OPS = [
 ]
 
 DIGIT_ALPHA = "0a 1-_+"
+def _splitext(s):
+    import posixpath
+    if isinstance(s, SymSeq):
+        return rt.call(posixpath.splitext, s)
+    return posixpath.splitext(s)
+
+
 def _map_int_str(s):
     # map() through the call dispatcher: int parsing and int rendering models under map(...)
     parts = s.split("-")
@@ -182,6 +189,8 @@ def main():
     ok = run("str", STR_OPS, STR_ALPHA, 3 if quick else 4, stats)
     ok = ok and run("bytes", BYTES_OPS, BYTES_ALPHA, 3 if quick else 4, stats)
     ok = ok and run("str", INT_OPS, DIGIT_ALPHA, 3, stats)
+    ok = ok and run("str", [("splitext", _splitext)], "a./", 4, stats)
+    ok = ok and run("bytes", [("splitext", _splitext)], b"a./", 3, stats)
     ok = ok and run("bytes", UTF8_OPS, UTF8_BYTES, 3 if quick else 4, stats, 2 if quick else 3)
     ok = ok and run("str", UTF8_STR_OPS, UTF8_STR, 2 if quick else 3, stats)
     ok = ok and render_test(stats)
